@@ -15,3 +15,14 @@ func (g *Group) VerifSetHeadSizeLimit(limit int64) {
 	g.headSizeLimit = limit
 	g.mtx.Unlock()
 }
+
+// VerifCheckTotalSizeLimit runs the total-size check of processTicks (removes the oldest files of
+// the group while it holds totalSizeLimit bytes or more).
+func (g *Group) VerifCheckTotalSizeLimit() { g.checkTotalSizeLimit() }
+
+// VerifSetTotalSizeLimit changes the total size limit of an open group.
+func (g *Group) VerifSetTotalSizeLimit(limit int64) {
+	g.mtx.Lock()
+	g.totalSizeLimit = limit
+	g.mtx.Unlock()
+}
